@@ -245,6 +245,10 @@ func (p *page) getBytes() []byte {
 	return p.bytes
 }
 func (p *page) captureInfo() gopacket.CaptureInfo {
+	if p.ac == nil {
+		// not the first page of its packet: only the capture time is known
+		return gopacket.CaptureInfo{Timestamp: p.seen}
+	}
 	return p.ac.GetCaptureInfo()
 }
 func (p *page) assemblerContext() AssemblerContext {
